@@ -109,10 +109,57 @@ func c16EscapeTable(c *Ctx, r *Report) {
 		return
 	}
 	usesTable, passesThrough := false, false
+	tableObj := p.Types.Scope().Lookup("escapeLookup")
+	// the written value is a table entry: escapeLookup[..] itself, a local assigned from one, or the
+	// result of a helper of this package that returns one
+	var fromTable func(fn *FuncInfo, e ast.Expr, depth int) bool
+	fromTable = func(fn *FuncInfo, e ast.Expr, depth int) bool {
+		e = ast.Unparen(e)
+		finfo := fn.Pkg.TypesInfo
+		if depth > 3 {
+			return false
+		}
+		switch t := e.(type) {
+		case *ast.IndexExpr:
+			return identObj(finfo, t.X) == tableObj && tableObj != nil
+		case *ast.Ident:
+			o := finfo.Uses[t]
+			found := false
+			ast.Inspect(fn.Decl.Body, func(m ast.Node) bool {
+				if as, ok := m.(*ast.AssignStmt); ok && len(as.Lhs) == len(as.Rhs) {
+					for i, l := range as.Lhs {
+						if identObj(finfo, l) == o && o != nil && fromTable(fn, as.Rhs[i], depth+1) {
+							found = true
+						}
+					}
+				}
+				return true
+			})
+			return found
+		case *ast.CallExpr:
+			if f := calleeFunc(finfo, t); f != nil && f.Pkg() != nil && f.Pkg().Path() == minijsonPkg {
+				if callee := funcDeclOf(c, f); callee != nil {
+					found := false
+					ast.Inspect(callee.Decl.Body, func(m ast.Node) bool {
+						if rs, ok := m.(*ast.ReturnStmt); ok {
+							for _, res := range rs.Results {
+								if fromTable(callee, res, depth+1) {
+									found = true
+								}
+							}
+						}
+						return true
+					})
+					return found
+				}
+			}
+		}
+		return false
+	}
 	ast.Inspect(fi.Decl.Body, func(n ast.Node) bool {
 		if ce, ok := n.(*ast.CallExpr); ok {
 			if se, ok := ce.Fun.(*ast.SelectorExpr); ok && se.Sel.Name == "WriteString" && len(ce.Args) == 1 {
-				if ix, ok := ast.Unparen(ce.Args[0]).(*ast.IndexExpr); ok && exprStr(ix.X) == "escapeLookup" {
+				if fromTable(fi, ce.Args[0], 0) {
 					usesTable = true
 				}
 			}
